@@ -33,7 +33,7 @@ def floor(tier):
 
 
 def cases(tier, rng):
-    n = 32 if tier == "quick" else 800
+    n = 32 if tier == "quick" else 640  # (640, not 800, since the key-order history: the second-process phase must fit into the budget)
     out = []
     # anchors: the massive N3LO coefficient functions come from tabulated grids loaded lazily per process: FL before F2, F2 before FL
     for k in range(2 if tier == "quick" else 12):
